@@ -331,7 +331,7 @@ class Sim:
         if nxt is cur:
             return
         self.nswitch += 1
-        self.switch_log.append(nxt.tid)
+        self.switch_log.append((self.steps, nxt.tid))
         nxt.baton.release()
         if exiting:
             return
@@ -395,7 +395,7 @@ class Sim:
             if self.line_gap_max > 1 and self.trace_files:
                 self._next_line_gap()
             t = self.spawn(main, 'main')
-            self.switch_log.append(0)
+            self.switch_log.append((0, 0))
             t.baton.release()
             ok = self.done.acquire(timeout=wall_timeout)
             if not ok:
